@@ -220,6 +220,20 @@ CHECKS = {
              "findings). Real controller datagram by datagram against an independent simulator; trace validator; ground-truth oracle.",
         ref="4 C09", technique="Coq proof (machine/controller refinement, invariant over attempts) + py2v/ast translation + vm_compute correspondence + trace validator",
         note=TB + " SC&MP flood-fill semantics as written in Model/Load.v; guards on binary size (multiple of 4, <= 255 blocks) are stated in the theorems."),
+    "C03": dict(
+        text="Partial. Proved for all inputs: on every fault-free torus or mesh (any w, h >= 1 incl. 1xN and 2xN, any source, "
+             "duplicated destinations, any radius, any random stream) ner_net returns a tree rooted at the source with no chip twice, "
+             "every hop a working adjacent link and every destination a node (on C11's geometry theorems and the cut-at-last-"
+             "intersection lemma), and route() then satisfies the property's whole sentence incl. the leaves whenever the tree "
+             "touches no dead link; copy_and_disconnect_tree keeps exactly the live chips once each over working links; one repair "
+             "splice over new ground; refutation for the duplicate-child defect of the code as found; soundness of the executable "
+             "validators check_tree (ValidTree) and check_connected. NOT proved for all inputs: the re-parenting case of the repair "
+             "step, A* completeness on every connected fault map and the composition of repairs in set order -- these are carried "
+             "per output: check_tree/check_connected are evaluated in Coq on every real route() output, plus exact tree "
+             "correspondence (scripted random stream and logged set orders) and an independent oracle incl. a dense-fault stream.",
+        ref="4 C03", technique="Coq proof (walk/tree induction on C11 geometry; verified validators) + vm_compute correspondence + validators evaluated on real outputs",
+        note=TB + " partial: repair re-parenting, A* completeness and repair composition are certified per output by the validators; "
+             "Python set iteration orders are logged and fed to the model."),
 }
 NOT_YET = {}
 def main():
